@@ -24,6 +24,8 @@ def obligations(ctx, tier):
     configs = ["Kd", "Kr"] if tier == "quick" else ["Kd", "Kr", "Kd0", "Kr0"]
     for cfg in configs:
         K = ctx.k(cfg)
+        from . import digits
+        out += digits.add_sub_rows(K, PROP)
         for A in ADTS:
             sg = is_signed(A)
             out += arith.mode_rows(K, PROP, A, "add", "TT", lambda W, a, b: a + b, "overflow(add)")
